@@ -156,7 +156,11 @@ func decodeMapBodyInto(blob []byte, v reflect.Value, fields []mapBodyField) erro
 	}
 	for _, f := range fields {
 		raw, ok := raws[f.Name]
-		if !ok {
+		if !ok || len(raw) == 0 {
+			// Absent key, or a msgpack nil: the decoder hands back an empty
+			// RawMessage for nil (a nil slice/map/pointer saved without
+			// omitempty), which must leave the field at its zero value
+			// instead of failing the whole read with EOF.
 			continue
 		}
 		fv := v.Field(f.Index)
